@@ -32,7 +32,7 @@ CLAIMED = {
          'pairing and guards hold on every path.',
          COMMON_NOTE + 'the replay equation over histories is implied, not replayed.', '4/C08'),
  'C09': ('single-growth-site rule, conflict-gated identity replacement, own-address guards at every apply site, '
-         'payload-consumer guards in handle_data, exact-forgetting rule',
+         'payload-consumer guards in handle_data, scratch discipline of the decoded payload, exact-forgetting rule',
          'Structural in almost full: uniqueness per address and the own-address exclusion follow from guards present on '
          'every path to every site that can add or replace a record.',
          COMMON_NOTE + 'Identity::addr pure; win_addr_conflict strict per address.', '4/C09'),
@@ -52,7 +52,7 @@ CLAIMED = {
          'What counts as evidence, who may record it and the relay table are decided on every path.',
          COMMON_NOTE + 'temporal clauses are decided as orderings of handler code only.', '4/C12'),
  'C13': ('who-may-write on timer_token (wrapping bump paired with every leave-Connected write), epoch-guard dominance in '
-         'every token-carrying timer arm, arm/re-arm site counting per periodic variant, path enumeration of set_config, '
+         'every token-carrying timer arm, arm/re-arm site counting per periodic variant with iff-guards (re-armed exactly when token current, Connected and configured), path enumeration of set_config, '
          'injectivity of Timer::seq',
          'The epoch mechanism and the arm/re-arm structure are decided on every path.',
          COMMON_NOTE + 'paths leaving a handler through `?` on a user codec error are outside the claim.', '4/C13'),
@@ -66,7 +66,7 @@ CLAIMED = {
          'Framing, gating and hand-over to the handler decided on every path.',
          COMMON_NOTE + 'handler-specific invalidation relations are user code.', '4/C16'),
  'C17': ('effect-ordering rule: on every path to a rejection return the set of effect atoms is empty (validation before '
-         'effect), scratch-buffer rule for updates_buf, deny-list over resolved callees for ambient nondeterminism',
+         'effect), scratch-buffer rule for updates_buf, framing refusals precede the first effect, deny-list over resolved callees for ambient nondeterminism',
          'Rejected input leaves no trace: decided per rejection class over all paths of the entry points.',
          COMMON_NOTE + 'user code is deterministic.', '4/C17'),
  'C18': ('extraction of the header-triggered reply graph (kind handled x sender active/inactive -> kind sent) from all '
@@ -78,7 +78,7 @@ CLAIMED = {
          'Every originated/answered datagram\'s destination is shown not to bear the own address, on every path.',
          COMMON_NOTE + 'relays towards a peer-named target are outside the guarantee (as stated).', '4/C19'),
  'C20': ('guard rules on the postcard flavor (bounded writes), cursor-arithmetic rule, sibling agreement of the four codec '
-         'methods per codec, derive-symmetry rule for wire types',
+         'methods per codec, derive-symmetry and plainness rule for wire types (no field skipped, defaulted or routed through hand-written code)',
          'The fail-cleanly and consume-exactly clauses for the code that lives in this repository.',
          COMMON_NOTE + 'value-level round-trip equality through bincode/postcard is not decided.', '4/C20'),
 }
